@@ -149,3 +149,63 @@ pub fn clock_self_test() -> Result<(), String> {
 	}
 	Ok(())
 }
+
+
+// ------------------------------------------------------------------ wall clock
+//
+// The wall clock is owned too: every reading of CLOCK_REALTIME is one second later than the
+// previous one, so anything the library derives from "now" differs between two calls and shows
+// up in the determinism oracles (C18: writing the same game twice gives identical bytes).
+// CLOCK_MONOTONIC (Instant, used by the watchdog) is passed through untouched.
+
+static REALTIME_READS: std::sync::atomic::AtomicI64 = std::sync::atomic::AtomicI64::new(0);
+
+#[no_mangle]
+pub extern "C" fn clock_gettime(clock: libc::clockid_t, ts: *mut libc::timespec) -> libc::c_int {
+	let rc = unsafe { libc::syscall(libc::SYS_clock_gettime, clock as libc::c_long, ts) } as libc::c_int;
+	if rc == 0 && clock == libc::CLOCK_REALTIME && !ts.is_null() {
+		let n = REALTIME_READS.fetch_add(1, std::sync::atomic::Ordering::Relaxed);
+		unsafe {
+			(*ts).tv_sec += n as libc::time_t;
+		}
+	}
+	rc
+}
+
+pub fn wall_clock_self_test() -> Result<(), String> {
+	let a = std::time::SystemTime::now();
+	let b = std::time::SystemTime::now();
+	match b.duration_since(a) {
+		Ok(d) if d.as_millis() >= 900 => Ok(()),
+		other => Err(format!("wall clock not owned: two consecutive readings differ by {:?}", other)),
+	}
+}
+
+// ------------------------------------------------------------------ logging
+//
+// A logger is installed with every level enabled, so that the argument expressions of the
+// library's debug!/trace!/info!/warn! calls are evaluated (they are skipped entirely when no
+// logger is enabled). Records are formatted into a sink and dropped.
+
+struct SinkLogger;
+
+impl log::Log for SinkLogger {
+	fn enabled(&self, _: &log::Metadata) -> bool {
+		true
+	}
+	fn log(&self, record: &log::Record) {
+		use std::io::Write;
+		let _ = write!(std::io::sink(), "{}", record.args());
+	}
+	fn flush(&self) {}
+}
+
+static LOGGER: SinkLogger = SinkLogger;
+
+pub fn install_logger() {
+	if std::env::var("VERIF_NO_LOGGER").is_ok() {
+		return;
+	}
+	let _ = log::set_logger(&LOGGER);
+	log::set_max_level(log::LevelFilter::Trace);
+}
